@@ -9,6 +9,7 @@ import (
 	"net/url"
 	"path/filepath"
 	"regexp"
+	"sort"
 	"strconv"
 	"strings"
 	"time"
@@ -188,5 +189,64 @@ func init() {
 		}
 		s.echo(fmt.Sprintf("%s now=%s", strings.Join(tk, " "), now))
 		s.obs("cliquerycap path=%s q=%s", gotPath, hexStr(gotQuery))
+	}
+}
+
+func init() {
+	// clirawdump q=<query template> : GET /view-raw?<query> on the real server (see clirawview); the
+	// point lists are compared as sets per archive (the physical order is not part of any property)
+	handlers["clirawdump"] = func(s *sess, tk []string) {
+		s.closeAll()
+		q := strings.TrimPrefix(strings.Join(tk[1:], " "), "q=")
+		if q == "-" {
+			q = ""
+		}
+		prefix := filepath.Base(s.dir)
+		q = strings.ReplaceAll(q, "CASEDIR", prefix)
+		s.echo(fmt.Sprintf("clirawdump q=%s prefix=%s", hexStr(q), hexStr(prefix)))
+		u, err := url.Parse(s.serverURL() + "/view-raw")
+		must(err)
+		u.RawQuery = q
+		resp, err := http.DefaultClient.Do(&http.Request{Method: "GET", URL: u, Header: http.Header{}, Host: u.Host})
+		if err != nil {
+			s.obs("clirawdump transport-error")
+			return
+		}
+		defer resp.Body.Close()
+		data, _ := io.ReadAll(resp.Body)
+		switch {
+		case resp.StatusCode == 400:
+			s.obs("clirawdump bad")
+			return
+		case resp.StatusCode != 200:
+			s.obs("clirawdump err")
+			return
+		case len(data) == 0:
+			s.obs("clirawdump notexist")
+			return
+		}
+		h := &wt.Header{}
+		data, err = h.TakeFrom(data)
+		if err != nil {
+			s.obs("clirawdump undecodable-header")
+			return
+		}
+		s.obs("clirawdump ok")
+		s.obs("out wirehdr %s", showHeader(h))
+		for i := range h.ArchiveInfoList() {
+			var pts wt.Points
+			data, err = pts.TakeFrom(data)
+			if err != nil {
+				s.obs("out undecodable-points %d", i)
+				return
+			}
+			var l []string
+			for _, p := range pts {
+				l = append(l, fmt.Sprintf("%010d:%s", uint32(p.Time), showVal(p.Value)))
+			}
+			sort.Strings(l)
+			s.obs("out rawpts %d [%s]", i, strings.Join(l, " "))
+		}
+		s.obs("out rest %d", len(data))
 	}
 }
